@@ -13,12 +13,6 @@ import (
 )
 
 func init() {
-	register(&Rule{ID: "E-DISPATCH", Props: []string{"C01", "C17", "C02", "C05", "C20"}, Floor: 100,
-		Doc: "the node types the parser constructs are exactly the cases of the evaluator's type switch (same pointer/value form); every case hands the node's children, evaluated in declaration order against the enclosing current node and scope, to the helper that implements that node; the Current variant of a node calls the same helper with the current node in place of the evaluated child and the corresponding fields in the same positions",
-		Run: ruleEDispatch})
-	register(&Rule{ID: "E-EVAL-ONCE", Props: []string{"C09", "C06"}, Floor: 100,
-		Doc: "no case of the dispatcher evaluates the same child node twice on one path (re-evaluating a child doubles the work per nesting level: exponential in the expression depth)",
-		Run: ruleEEvalOnce})
 	register(&Rule{ID: "E-NODESETS", Props: []string{"C12", "C17", "C01"}, Floor: 2,
 		Doc: "isSliceNode names exactly the node types whose case calls slice/sliceStep and isProjectNode exactly those whose case calls a projecting helper; the string bypass of the array projection (right-hand side applied to the whole value) is guarded by a condition on the node's left operand, not only on the data",
 		Run: ruleENodeSets})
@@ -28,18 +22,12 @@ func init() {
 	register(&Rule{ID: "E-SELECTOR-NULL", Props: []string{"C01"}, Floor: 10,
 		Doc: "selectors and projection helpers return null (and no error) when their subject has the wrong type: the failure edge of the container assertion returns the nil constant",
 		Run: ruleESelectorNull})
-	register(&Rule{ID: "E-PIPE", Props: []string{"C18", "C01", "C17"}, Floor: 1,
-		Doc: "the pipe case evaluates its right operand with the left result as the current node and the same scope, unconditionally (a null left result is still piped)",
-		Run: ruleEPipe})
 	register(&Rule{ID: "E-EQUALITY", Props: []string{"C20"}, Floor: 4,
 		Doc: "!= is the negation of the same equality helper as ==; contains tests membership with that helper; in equal the array and object loops are dominated by a length-equality test, the object loop tests key presence with a comma-ok lookup before comparing values, and different JSON types never compare equal by falling through",
 		Run: ruleEEquality})
 	register(&Rule{ID: "E-TRUTHY", Props: []string{"C20", "C14"}, Floor: 6,
 		Doc: "isTrue implements the specification's truth table (null/false/empty string/array/object are false-like, every number of every kind and every other value true-like) and !, &&, ||, filters and filter projections decide truth only by calling isTrue",
 		Run: ruleETruthy})
-	register(&Rule{ID: "E-ANDOR-OPERAND", Props: []string{"C20"}, Floor: 2,
-		Doc: "&& and || return one of their operands unchanged: the left value itself or the result of evaluating the right operand",
-		Run: ruleEAndOrOperand})
 	register(&Rule{ID: "E-RESULT-TYPES", Props: []string{"C18"}, Floor: 100,
 		Doc: "every value the evaluator converts to `any` has one of the JSON carrier types: bool, string, []any, map[string]any or one of the 14 numeric kinds; strings are never re-typed as json.Number",
 		Run: ruleEResultTypes})
